@@ -230,7 +230,8 @@ def guard_clause(model, rep, funcs):
         forms[a] = got
         ret = [r for r in body if isinstance(r, ast.Return)]
         is_ft = a in FT
-        ret_ok = bool(ret) and (norm_src(ret[0].value) == "img" if not is_ft else norm_src(ret[0].value) in ("fftn(img)", "backend.fftn(img)"))
+        rv = norm_src(Matcher(f).expr(ret[0].value)) if ret else ""  # temporaries expanded: `img_ft = fftn(img); ...; return img_ft`
+        ret_ok = bool(ret) and (rv == "img" if not is_ft else rv in ("fftn(img)", "backend.fftn(img)"))
         rep.ob("GUARD", a, "identity guard is `cutoff >= 0.5*sqrt(ndim) or cutoff <= 0` and returns the input " + ("spectrum" if is_ft else "image") + " unchanged",
                got == want and ret_ok, f"guard `{norm_src(g.test)}` returns `{norm_src(ret[0].value) if ret else None}`", node=g, fn=f, clause="4 identity",
                stmt=f"guard ({a})")
@@ -257,7 +258,8 @@ def sibling_clause(model, rep, funcs):
                 det = f"nd_butterworth_weight({', '.join(args)})"
             prod = [n for n in ast.walk(f.node) if isinstance(n, ast.BinOp) and isinstance(n.op, ast.Mult) and "weight" in norm_src(n)]
             fam = "rfftn(img)" if a in REAL else "fftn(img)"
-            ok = ok and len(prod) == 1 and fam in norm_src(prod[0]) and ("rfftn" in norm_src(prod[0])) == (a in REAL)
+            px = norm_src(Matcher(f).expr(prod[0])) if prod else ""  # `img_ft = rfftn(img); weight * img_ft` is the same product
+            ok = ok and len(prod) == 1 and fam in px and ("rfftn" in px) == (a in REAL)
             rep.ob("S11", a, "weight(img.shape, cutoff, order, real=" + ("True" if a in REAL else "False") + ") multiplies the " + ("half" if a in REAL else "full") +
                    " spectrum of the image (weight and spectrum layouts agree)", ok, det + f"; product `{norm_src(prod[0]) if prod else None}`", node=f.node, fn=f,
                    clause="5 siblings", stmt=f"lowpass weight use ({a})")
@@ -270,7 +272,7 @@ def sibling_clause(model, rep, funcs):
             continue
         rets = [r for r in walk_no_nested(f.node) if isinstance(r, ast.Return) and r.value is not None]
         rep.instance("S11.lowpass", f.loc())
-        ok = len(rets) == 1 and norm_src(rets[0].value) == target
+        ok = len(rets) == 1 and Matcher(f).has("return " + target)
         rep.ob("S11", a, "delegates to the low-pass implementation without re-scaling the cutoff (cycles per pixel)", ok, norm_src(rets[0].value) if rets else "",
                node=f.node, fn=f, clause="5 siblings", stmt=f"delegate ({a})")
     f = funcs.get("acryo/alignment/_base.py::TomographyInput.__init__")
